@@ -70,7 +70,8 @@ def functions(tier, seed):
     for nm in ("try_", "type", "fn", "match", "match_", "type_", "self_fn$x", "a$b", "Self", "crate_", "async", "dyn", "gen", "try", "box", "box_", "box_1"):
         add(int_t, [next(t for t in A if t.key == "s8if"), int_t], name=nm)
     if tier == "quick":
-        keep = [f for k, f in enumerate(fns) if k < 160 or (k + seed) % 5 == 0 or not f.name.startswith("K") or f.abi]
+        first = 3 * len(A)   # the "every type as result / single parameter" block is always complete
+        keep = [f for k, f in enumerate(fns) if k < first or (k + seed) % 5 == 0 or not f.name.startswith("K") or f.abi]
         fns = keep
     return fns
 
@@ -99,6 +100,9 @@ long (*fr_0_2(void))(int a, char b);
 long (*fr_2_3(int x, char y))(int a, double b, char c);
 long (*fr_3_1(int x, int y, int z))(char c);
 long (*fr_2_2(int x, char y))(int a, char b);
+long (__attribute__((ms_abi)) *fr_ms_cb(int which))(long a, long b);
+__attribute__((ms_abi)) long (*fr_ms_acc(int which))(long a, long b);
+__attribute__((ms_abi)) long (__attribute__((ms_abi)) *fr_ms_both(int which))(long a, long b);
 """
 FNRET_C = """
 static long m2(int a, char b) { return a * 1000L + b; }
@@ -111,6 +115,11 @@ long (*fr_0_2(void))(int a, char b) { g_hash = 77; return m2; }
 long (*fr_2_3(int x, char y))(int a, double b, char c) { g_hash = (unsigned long long)(x + y); return m3; }
 long (*fr_3_1(int x, int y, int z))(char c) { g_hash = (unsigned long long)(x + y + z); return m1c; }
 long (*fr_2_2(int x, char y))(int a, char b) { g_hash = (unsigned long long)(x - y); return m2; }
+static long __attribute__((ms_abi)) ms_sub(long a, long b) { return a * 3 - b; }
+static long sysv_sub(long a, long b) { return a * 5 - b; }
+long (__attribute__((ms_abi)) *fr_ms_cb(int which))(long a, long b) { g_hash = (unsigned long long)which; return ms_sub; }
+__attribute__((ms_abi)) long (*fr_ms_acc(int which))(long a, long b) { g_hash = (unsigned long long)(which + 1); return sysv_sub; }
+__attribute__((ms_abi)) long (__attribute__((ms_abi)) *fr_ms_both(int which))(long a, long b) { g_hash = (unsigned long long)(which + 2); return ms_sub; }
 """
 FNRET_RS = [
     ("fr_1_2", "(3.0f64)", "(5, 6 as _)", "5 * 1000 + 6", "3"),
@@ -119,6 +128,10 @@ FNRET_RS = [
     ("fr_2_3", "(1, 2 as _)", "(3, 1.5f64, 4 as _)", "3 * 100 + 3 + 4", "3"),
     ("fr_3_1", "(1, 2, 3)", "(9 as _)", "16", "6"),
     ("fr_2_2", "(9, 4 as _)", "(1, 2 as _)", "1002", "5"),
+    # accessor and returned callback with DIFFERENT calling conventions (in-place declarator, no typedef)
+    ("fr_ms_cb", "(9)", "(7, 2)", "7 * 3 - 2", "9"),
+    ("fr_ms_acc", "(4)", "(7, 2)", "7 * 5 - 2", "5"),
+    ("fr_ms_both", "(1)", "(7, 2)", "7 * 3 - 2", "3"),
 ]
 
 
@@ -160,6 +173,10 @@ RUST_SCALAR = {"char": "::std::os::raw::c_char", "schar": "::std::os::raw::c_sch
                "ushort": "::std::os::raw::c_ushort", "int": "::std::os::raw::c_int", "uint": "::std::os::raw::c_uint", "long": "::std::os::raw::c_long",
                "ulong": "::std::os::raw::c_ulong", "llong": "::std::os::raw::c_longlong", "ullong": "::std::os::raw::c_ulonglong", "float": "f32", "double": "f64",
                "bool": "bool", "enum": "@enum fe", "tdint": "@typedef td_int"}
+# <stdint.h> / <stddef.h> names: the Rust type is decided by the WIDTH the host libc gives the name (a typed local of that width
+# must be accepted by the binding's parameter); pointer-sized names are the pointer-sized Rust integers
+for _n, (_s, _b) in gen_fn.STD_NAMES.items():
+    RUST_SCALAR["sd_" + _n] = {"size_t": "usize", "uintptr_t": "usize", "ssize_t": "isize", "intptr_t": "isize", "ptrdiff_t": "isize"}.get(_n, f"{'i' if _s else 'u'}{_b}")
 NAMING = {"mode": "plain"}
 
 
